@@ -142,15 +142,17 @@ func (node *PFCPNode) NewPFCPConn(lAddr, rAddr string, buf []byte) *PFCPConn {
 	p.setLocalNodeID(node.upf.nodeID)
 	verifPoint("conn.new.beforeFirst", p)
 
+	// Update map of connections before the first message is handled: if that message ends the
+	// connection, the completion must find (and remove) the entry.
+	node.pConns.Store(rAddr, p)
+	verifPoint("conn.new.stored", rAddr)
+
 	if buf != nil {
 		// TODO: Check if the first msg is Association Setup Request
 		p.HandlePFCPMsg(buf)
 	}
 
 	verifPoint("conn.new.afterFirst", rAddr)
-	// Update map of connections
-	node.pConns.Store(rAddr, p)
-	verifPoint("conn.new.stored", rAddr)
 
 	go p.Serve()
 
